@@ -1,4 +1,5 @@
 import PhysisModel.Proofs.Dat
+import PhysisModel.Proofs.DatGapped
 import PhysisModel.Properties.C01
 import PhysisModel.Proofs.BinrwTieDat
 /-!
@@ -247,5 +248,77 @@ theorem c02_binrw_ModelFileBlock (l : Bytes) :
     Dat.readModelFileBlock l =
       via BinrwTie.Dat.modelFileBlockOf (Layout.read BinrwTie.Dat.endian BinrwDat.modelFileBlock l) :=
   BinrwTie.Dat.readModelFileBlock_eq_generated l
+
+/-! ### texture entries with filler between the mip chains
+
+Every LOD record of a texture entry carries the offset of its first block, so the chains of two
+LODs need not sit back to back.  `packTextureG texHeader mips gaps` (`Spec/SqPackData.lean`) puts
+`gaps[i]` — arbitrary bytes of arbitrary length, `[]` where `gaps` is too short, surplus ignored —
+in front of the chain of LOD `i + 1` and records `offset + gaps[i].length` in that LOD's record (the
+chain of LOD 0 starts right behind the texture header, whose length the reader takes from that
+record).  `c02_texture` is the case `gaps = []` (`c02_texture_gapped_generalises`).
+Helper lemmas: `Proofs/DatGapped.lean` (the LOD walk under the invariant "the chain starts where
+its record says", not "at the running sum of the chains before it"). -/
+namespace Physis.C02
+open Physis Physis.Dat Physis.Spec.SqPackData
+
+/-- a texture entry whose mip chains are separated by arbitrary filler yields the texture header
+followed by every mip block in order — nothing of the filler -/
+theorem c02_texture_gapped (inflate : Inflate) (texHeader : Bytes) (mips : List (List Block))
+    (gaps : List Bytes)
+    (hwf : textureGWf texHeader mips gaps = true) (hd : ∀ b ∈ mips.flatten, Deflated inflate b)
+    (pre suf : Bytes)
+    (hsz : pre.length + (packTextureG texHeader mips gaps).length < 18446744073709551616) :
+    readFromOffset inflate (pre ++ packTextureG texHeader mips gaps ++ suf) pre.length =
+      some (some (texHeader ++ contents mips.flatten)) :=
+  readFromOffset_textureG inflate texHeader mips gaps hwf hd pre suf hsz
+
+/-- without filler the gapped entry is the plain one, so `c02_texture_gapped` subsumes `c02_texture` -/
+theorem c02_texture_gapped_generalises (texHeader : Bytes) (mips : List (List Block)) :
+    packTextureG texHeader mips [] = packTexture texHeader mips :=
+  packTextureG_nil texHeader mips
+
+/-- … and the well-formedness predicates coincide there -/
+theorem c02_texture_gapped_wf_nil (texHeader : Bytes) (mips : List (List Block)) :
+    textureGWf texHeader mips [] = textureWf texHeader mips :=
+  textureGWf_nil texHeader mips
+
+/-- `c02_texture` re-derived from the gapped theorem -/
+example (inflate : Inflate) (texHeader : Bytes) (mips : List (List Block))
+    (hwf : textureWf texHeader mips = true) (hd : ∀ b ∈ mips.flatten, Deflated inflate b)
+    (pre suf : Bytes) (hsz : pre.length + (packTexture texHeader mips).length < 18446744073709551616) :
+    readFromOffset inflate (pre ++ packTexture texHeader mips ++ suf) pre.length =
+      some (some (texHeader ++ contents mips.flatten)) := by
+  rw [← c02_texture_gapped_generalises] at hsz ⊢
+  exact c02_texture_gapped inflate texHeader mips [] (by rw [c02_texture_gapped_wf_nil]; exact hwf) hd pre suf hsz
+
+/-! non-vacuity: two mips (`[b1]`, `[b2, b1]`; `b2` stored deflated), the 5-byte filler
+`[7, 8, 9, 10, 11]` in front of the second chain, a 4-byte texture header -/
+example : textureGWf [9, 9, 9, 9] [[b1], [b2, b1]] [[7, 8, 9, 10, 11]] = true := by decide +kernel
+/-- the filler is really there: the entry is 5 bytes longer than the plain one and differs from it -/
+example : (packTextureG [9, 9, 9, 9] [[b1], [b2, b1]] [[7, 8, 9, 10, 11]]).length =
+    (packTexture [9, 9, 9, 9] [[b1], [b2, b1]]).length + 5 := by decide +kernel
+/-- the second LOD record carries offset 4 + 128 + 5 = 137 = 0x89 (record 1 starts at byte 24 + 20) -/
+example : ((packTextureG [9, 9, 9, 9] [[b1], [b2, b1]] [[7, 8, 9, 10, 11]]).drop 44).take 4 = [137, 0, 0, 0] := by
+  decide +kernel
+/-- the theorem instantiated (hypotheses discharged on the concrete value) -/
+example : readFromOffset storedInflate
+    (List.replicate 128 7 ++ packTextureG [9, 9, 9, 9] [[b1], [b2, b1]] [[7, 8, 9, 10, 11]] ++ [5, 5])
+    (List.replicate 128 (7 : UInt8)).length =
+    some (some ([9, 9, 9, 9] ++ contents [[b1], [b2, b1]].flatten)) :=
+  c02_texture_gapped storedInflate [9, 9, 9, 9] [[b1], [b2, b1]] [[7, 8, 9, 10, 11]] (by decide +kernel)
+    (by
+      intro b hb c hc
+      simp only [List.flatten_cons, List.flatten_nil, List.cons_append, List.nil_append, List.append_nil,
+        List.mem_cons, List.mem_nil_iff, or_false] at hb
+      rcases hb with rfl | rfl | rfl
+      · cases hc
+      · cases hc; decide
+      · cases hc)
+    _ _ (by decide +kernel)
+/-- the model evaluated on that file (a test, labelled as such) -/
+example : readFromOffset storedInflate
+    (List.replicate 128 7 ++ packTextureG [9, 9, 9, 9] [[b1], [b2, b1]] [[7, 8, 9, 10, 11]] ++ [5, 5]) 128 =
+    some (some [9, 9, 9, 9, 10, 20, 30, 40, 50, 1, 2, 3, 10, 20, 30, 40, 50]) := by decide +kernel
 
 end Physis.C02
